@@ -1105,6 +1105,14 @@ class Unit:
                 if entry_txt_r23 and b0.startswith("{" + entry_txt_r23):
                     b0 = "{" + b0[1 + len(entry_txt_r23):]
                 mm = re.fullmatch(r"\{\s*match\s+(\w+)\s*\.\s*as_(?:mut|ref)\(\)\s*\{\s*None\s*=>\s*(.*?),\s*Some\(\s*(\w+)\s*\)\s*=>\s*(.*?),?\s*\}\s*\}", b0, re.S)
+                if not mm:
+                    # the arms in the other order: `match p.as_mut() { Some(p) => B, None => A }` (A a single path / literal)
+                    m2 = re.fullmatch(r"\{\s*match\s+(\w+)\s*\.\s*as_(?:mut|ref)\(\)\s*\{\s*Some\(\s*(\w+)\s*\)\s*=>\s*(.*),\s*None\s*=>\s*([\w:]+(?:\([\w:]*\))?)\s*,?\s*\}\s*\}", b0, re.S)
+                    if m2:
+                        class _M:
+                            def __init__(s_, g): s_.g = g
+                            def group(s_, i): return s_.g[i]
+                        mm = _M({1: m2.group(1), 2: m2.group(4), 3: m2.group(2), 4: m2.group(3)})
                 if not mm or mm.group(1) != mm.group(3) or mm.group(1) not in r24m_names:
                     raise AnchorLost(f"{where}: r24m: the body is not `match p.as_mut() {{ None => .., Some(p) => .. }}` for a pointer parameter")
                 # the None arm must be a single expression without a top-level comma (otherwise the split above is wrong)
@@ -1117,6 +1125,13 @@ class Unit:
                 btxt = "{ " + entry_txt_r23 + mm.group(4).strip() + " }"
             if "r21" in opts:
                 btxt = re.sub(r"\b(?:tokio::time::)?Instant::now\(\)", "clk__.now()", btxt)
+            for a_, b_ in opts.get("bsubs", []):
+                # R30: a call of a std function whose signature is outside the Verus subset (e.g. a `dyn` bound) is routed to a shim
+                # of the same arity declared in the template
+                if a_ not in btxt:
+                    raise AnchorLost(f"{where}: body no longer contains `{a_}`")
+                btxt = btxt.replace(a_, b_)
+                self.log("R30", relfile, src, bs, f"{path}: `{a_}` -> `{b_}` (shim with an assumed contract)")
             if "r29" in opts:
                 # R29: a boxed trait-object callback (`Box<dyn FnOnce..>`, outside the Verus subset) is an opaque shim value:
                 # `Box::new(f)` -> `DynBox__::new(f)` (a type alias of the module for its shim), the call `cb(args)` of the named binding -> `cb.invoke(args)`
@@ -1236,6 +1251,8 @@ class Unit:
                         opts["execconst"] = f[10:] if f.startswith("execconst=") else ""
                     elif f.startswith("sub="):
                         opts.setdefault("subs", []).append(tuple(f[4:].split("=>", 1)))
+                    elif f.startswith("bsub="):
+                        opts.setdefault("bsubs", []).append(tuple(f[5:].split("=>", 1)))
                     elif f.startswith("eta="):
                         opts.setdefault("etas", []).append(tuple(x.strip() for x in f[4:].split(">")))
                     else:
